@@ -44,13 +44,13 @@ Example ex1_hypotheses :
 Proof.
   split; [apply (codec_ok_utf16 _ utf16); reflexivity|].
   split; [vm_compute; reflexivity|]. split; [discriminate|].
-  split; [eexists (match py_encode _ _ with Ok x => x | Err _ => [] end); vm_compute; reflexivity|].
+  split; [exists (match py_encode ex1_t (B "utf-16") with Ok x => x | Err _ => [] end); vm_compute; reflexivity|].
   split; [apply la_decl; cbv; auto | apply ia_int; lia].
 Qed.
 
 (* the theorem applied to the instance gives the computed facts back *)
 Example ex1_by_theorem :
-  exists body lines,
+  exists (body : bytes) (lines : list bytes),
     prepare_content s0 (CText ex1_t) (WInt 4) ex1_le (WStr ex1_e) true = Ok (body, ex1_le) /\
     forall st rest, remaining (st_stream st) = body ++ rest -> (Z.of_nat (length body) <= sys_maxsize)%Z ->
       exists st',
@@ -101,7 +101,7 @@ Example ex2_hypotheses :
 Proof.
   split; [apply (codec_ok_utf8 _ utf8); reflexivity|].
   split; [vm_compute; reflexivity|]. split; [discriminate|].
-  split; [eexists (match py_encode _ _ with Ok x => x | Err _ => [] end); vm_compute; reflexivity|].
+  split; [exists (match py_encode ex2_t (B "utf-8") with Ok x => x | Err _ => [] end); vm_compute; reflexivity|].
   split; [apply la_none|]. split; [apply ia_none | apply ia_int; lia].
 Qed.
 
